@@ -4,7 +4,7 @@
      code 2 + 10*(step+1)      the specification holds but the model (Model/C08PassFail.v, policy `repaired`) differs
    The specification below is written on observables only (outcome of each call, what a fresh process returns for that
    call alone, emptiness of the pending sets) and does not mention the pass manager's algorithm. *)
-Require Import Hdl21.Base.PyInt Hdl21.Model.C08PassFail Hdl21.Model.C08GenFail Hdl21.Corr.C03.
+Require Import Hdl21.Base.PyInt Hdl21.Model.C08PassFail Hdl21.Model.C08GenFail Hdl21.Model.C08Elaborator Hdl21.Corr.C03.
 Open Scope list_scope.
 
 (* what a call returned: a package (digest of its deterministic serialisation + its modules in order) or an error *)
@@ -12,10 +12,13 @@ Inductive iout := IOk (digest : Z) (mods : list nat) | IErr (e : cerr).
 
 Record obs := {
   o_out : iout;
+  o_txt : Z;                        (* identity of the WHOLE error text (class, message with the hierarchical path, addresses
+                                       scrubbed); 0 when the call returned.  `CCycle m` in o_out forgets the path, this does not *)
   o_pend_empty : bool;              (* every CLASS_LEVEL_CACHE.pending is empty after the call *)
   o_done : list (nat * nat);        (* the done sets of the pass classes the history uses *)
   o_failed : list (nat * Z);        (* modules carrying a failure record, with the recorded error *)
-  o_elab : list nat                 (* modules marked _elaborated *)
+  o_elab : list nat;                (* modules marked _elaborated *)
+  o_installed : list nat            (* class identities of the_global_elaborator.passes when the call was made *)
 }.
 
 Record step := {
@@ -23,9 +26,15 @@ Record step := {
   st_obs : obs;
   st_retry_of : option nat;         (* this call repeats that earlier call, nothing changed in between *)
   st_fresh : option iout;           (* what a fresh process returns for this call alone (same objects, same edits) *)
+  st_fresh_txt : Z;                 (* ... and the identity of its error text *)
+  st_min : option iout;             (* what a process returns in which NOTHING BUT the design of this call was ever built;
+                                       given for designs that never contained the faulty module *)
+  st_min_txt : Z;
   st_bad : option (nat * bool);     (* the call is built to fail inside this module; true = inside a rewriting pass *)
   st_search : option Z;             (* a real design fault: the failing (pass, module) is located by search *)
-  st_carry : bool                   (* the design fault located earlier is still present *)
+  st_carry : bool;                  (* the design fault located earlier is still present *)
+  st_install : einstall             (* how the pass list of this call is made (Model/C08Elaborator.v); the driver ends
+                                       every call with reset_elaborator() *)
 }.
 
 Definition cerr_eqb (a b : cerr) : bool :=
@@ -51,19 +60,20 @@ Definition iout_eqb (a b : iout) : bool :=
 
 (* ------------------------------------------------------------------ the specification, on observables *)
 (* offenders: (module, left half-rewritten, the error reported when it failed) of the earlier failed calls *)
-Definition offender := (nat * bool * cerr)%type.
+Definition offender := (nat * bool * (cerr * Z))%type.
+Definition same_as (o : obs) (fo : iout) (ft : Z) : bool := iout_eqb (o_out o) fo && (o_txt o =? ft).
 
-Definition spec_step (offs : list offender) (outs : list iout) (s : step) : bool :=
+Definition spec_step (offs : list offender) (outs : list (iout * Z)) (s : step) : bool :=
   let o := st_obs s in
   let r := reach (st_call s) in
   let inreach := filter (fun x : offender => memn (fst (fst x)) r) offs in
   let halfs := filter (fun x : offender => snd (fst x)) inreach in
   (* 1. nothing is left pending *)
   o_pend_empty o &&
-  (* 2. repeating a failed call reports the original error again *)
+  (* 2. repeating a failed call reports the original error again: the same text, hierarchical path included *)
   match st_retry_of s with
   | Some j => match nth_error outs j with
-              | Some (IErr e) => iout_eqb (o_out o) (IErr e)
+              | Some (IErr e, t) => same_as o (IErr e) t
               | _ => true
               end
   | None => true
@@ -72,7 +82,7 @@ Definition spec_step (offs : list offender) (outs : list iout) (s : step) : bool
   match halfs with
   | [] => true
   | _ => match o_out o with
-         | IErr e => existsb (fun x : offender => cerr_eqb e (snd x)) halfs
+         | IErr e => existsb (fun x : offender => cerr_eqb e (fst (snd x)) && (o_txt o =? snd (snd x))) halfs
          | IOk _ _ => false
          end
   end &&
@@ -81,15 +91,21 @@ Definition spec_step (offs : list offender) (outs : list iout) (s : step) : bool
   | IOk _ _ => match st_fresh s with Some fo => iout_eqb (o_out o) fo | None => false end
   | IErr _ => true
   end &&
-  (* 5. a design that contains no offending module behaves as in a fresh process *)
+  (* 5. a design that contains no offending module behaves as in a fresh process: same package, or the same error text *)
   match inreach with
-  | [] => match st_fresh s with Some fo => iout_eqb (o_out o) fo | None => true end
+  | [] => match st_fresh s with Some fo => same_as o fo (st_fresh_txt s) | None => true end
   | _ => true
+  end &&
+  (* 6. ... whatever else was built next to it: "the result a fresh process gives" for a design is the result of the
+        process in which only that design exists *)
+  match inreach, st_min s with
+  | [], Some fo => same_as o fo (st_min_txt s)
+  | _, _ => true
   end.
 
 Definition new_offender (s : step) : list offender :=
   match st_bad s, o_out (st_obs s) with
-  | Some (m, hf), IErr e => [(m, hf, e)]
+  | Some (m, hf), IErr e => [(m, hf, (e, o_txt (st_obs s)))]
   | _, _ => []
   end.
 
@@ -112,6 +128,7 @@ Definition digest_of (o : iout) : Z := match o with IOk d _ => d | IErr _ => 0 e
 Definition agrees (ms : pst) (c : call) (o : obs) : bool :=
   let r := do_call repaired ms c in
   let s1 := fst (fst r) in
+  nats_eqb (map pid (c_passes c)) (o_installed o) &&
   iout_eqb (model_out r (c_export c) (digest_of (o_out o))) (o_out o) &&
   same_pm (done s1) (o_done o) &&
   same_failed (failed s1) (o_failed o) &&
@@ -131,12 +148,35 @@ Fixpoint find_loc (ms : pst) (c : call) (o : obs) (code : Z) (cands : list (nat 
   | (p, m) :: rest => if agrees ms (with_fail c [(p, m, code)]) o then Some (p, m, code) else find_loc ms c o code rest
   end.
 
-Fixpoint chk_steps (k : Z) (ms : pst) (carry : list (nat * nat * Z)) (offs : list offender) (outs : list iout)
+(* the default pass list, as the pass records of the calls made with it show it *)
+Fixpoint default_of (ss : list step) : list pass :=
+  match ss with
+  | [] => []
+  | s :: ss' => match st_install s with EReset => c_passes (st_call s) | _ => default_of ss' end
+  end.
+
+(* Model/C08Elaborator.v, `fresh = true`: the list the_global_elaborator holds after this call's installation *)
+Definition model_list (dflt : list pass) (es : est) (s : step) : option (list pass) :=
+  match einstall_step true dflt es (st_install s) with Some es1 => current es1 | None => None end.
+Definition passes_eqb (a b : list pass) : bool :=
+  nats_eqb (map pid a) (map pid b) && forallb (fun x => x) (map (fun ab : pass * pass => Bool.eqb (prw (fst ab)) (prw (snd ab)) && Bool.eqb (pmk (fst ab)) (pmk (snd ab))) (combine a b)).
+
+Fixpoint chk_steps (dflt : list pass) (es : est) (k : Z) (ms : pst) (carry : list (nat * nat * Z)) (offs : list offender) (outs : list (iout * Z))
                    (ss : list step) : Z :=
   match ss with
   | [] => 0
   | s :: ss' =>
       if negb (spec_step offs outs s) then 1 + 10 * (k + 1) else
+      (* the pass list of the call is the one the elaborator model installs (whatever was installed and edited before) *)
+      if negb (match dflt, model_list dflt es s with
+               | [], _ => true                      (* no call with the default list in this history: nothing to compare with *)
+               | _, Some l => passes_eqb l (c_passes (st_call s))
+               | _, None => false
+               end) then 2 + 10 * (k + 1) else
+      let es' := match einstall_step true dflt es (st_install s) with
+                 | Some es1 => match einstall_step true dflt es1 EReset with Some es2 => es2 | None => es1 end
+                 | None => es
+                 end in
       let carried := if st_carry s then carry else [] in
       let c0 := with_fail (st_call s) carried in
       let found := match st_search s with
@@ -150,21 +190,22 @@ Fixpoint chk_steps (k : Z) (ms : pst) (carry : list (nat * nat * Z)) (offs : lis
       if negb (agrees ms c1 (st_obs s)) then 2 + 10 * (k + 1) else
       let ms' := fst (fst (do_call repaired ms c1)) in
       let carry' := match found with Some x => x :: carried | None => carried end in
-      chk_steps (k + 1) ms' carry' (new_offender s ++ offs) (outs ++ [o_out (st_obs s)]) ss'
+      chk_steps dflt es' (k + 1) ms' carry' (new_offender s ++ offs) (outs ++ [(o_out (st_obs s), o_txt (st_obs s))]) ss'
   end.
 
 (* the whole history through the specification first: a model mismatch at an early call must not hide a violation of the
    specification at a later one *)
-Fixpoint spec_only (k : Z) (offs : list offender) (outs : list iout) (ss : list step) : Z :=
+Fixpoint spec_only (k : Z) (offs : list offender) (outs : list (iout * Z)) (ss : list step) : Z :=
   match ss with
   | [] => 0
   | s :: ss' => if negb (spec_step offs outs s) then 1 + 10 * (k + 1)
-                else spec_only (k + 1) (new_offender s ++ offs) (outs ++ [o_out (st_obs s)]) ss'
+                else spec_only (k + 1) (new_offender s ++ offs) (outs ++ [(o_out (st_obs s), o_txt (st_obs s))]) ss'
   end.
 
 Definition hcase := list step.
 Definition chk_history (h : hcase) : Z :=
-  let c := spec_only 0 [] [] h in if c =? 0 then chk_steps 0 init [] [] [] h else c.
+  let c := spec_only 0 [] [] h in
+  if c =? 0 then chk_steps (default_of h) (einit true (default_of h)) 0 init [] [] [] h else c.
 
 (* ------------------------------------------------------------------ generator histories *)
 Inductive gout := GOk (name : Z) | GErr (e : gerr) | GOther.
@@ -175,6 +216,7 @@ Record gstepc := {
        kind (0 Exception, 1 returns no Module, >= 2 a BaseException outside Exception) *)
   g_out : gout;
   g_fresh : gout;                        (* the same call, same body behaviour, in a fresh process *)
+  g_txt : Z; g_fresh_txt : Z;            (* identities of the whole error texts (0: the call returned) *)
   g_pend_empty : bool;
   g_stack_empty : bool;
   g_done : list nat;                     (* keys in Cache.done *)
@@ -200,7 +242,8 @@ Fixpoint assoc_mode (l : list (nat * option (nat * nat))) (k : nat) : option (na
 
 (* specification: nothing stays pending or on the stack, and the call does what it does in a fresh process
    (a body that raised is simply run again) *)
-Definition gspec (s : gstepc) : bool := g_pend_empty s && g_stack_empty s && gout_eqb (g_out s) (g_fresh s).
+Definition gspec (s : gstepc) : bool :=
+  g_pend_empty s && g_stack_empty s && gout_eqb (g_out s) (g_fresh s) && (g_txt s =? g_fresh_txt s).
 
 Fixpoint chk_gsteps (calls : list (nat * list nat)) (unc : list nat) (k : Z) (ms : gst) (ss : list gstepc) : Z :=
   match ss with
